@@ -1971,9 +1971,11 @@ class EntityInst(Instance):
 
         for port_name, port_decl in self._entity.ports().items():
             if port_decl.direction().is_input():
-                # the actual of an input port is an expression, views and slices
-                # need a cast to the type of the formal
-                local = self._scope.format_value(self._ports[port_name])
+                # the actual of an input port is an expression, it is
+                # cast to the type of the formal like an assigned value
+                local = self._scope.format_value(
+                    self._ports[port_name], target_hint=port_decl
+                )
             else:
                 local = self._scope.format_target(self._ports[port_name])
 
